@@ -5,7 +5,7 @@ F = "lc"
 PROP = {
     "inject": [(LC_OWNER, "lc.rs")],
     "cuts": [extract_lc_comparator],
-    "functions": ["comparator closure of lifecycle::get_sorted_lifecycles_as_vec (source-extracted)", "lifecycle::Lifecycle::merge", "Lifecycle::was_merged"],
+    "functions": ["the sorting statements of lifecycle::get_sorted_lifecycles_as_vec (source-extracted) incl. its comparator/key closure", "slice::sort_by_key, slice::rotate_left (std, as compiled)", "lifecycle::Lifecycle::merge", "Lifecycle::was_merged"],
     "bounds": "exact (loop-free code): 3 arbitrary records with distinct ids and acyclic resume links for the order axioms; 2 arbitrary records with I for merge",
     "stubs": [],
     "outside": ["every listed lifecycle referenced by a delivered message; counts equal to the delivered histogram; no merged lifecycle left published "
@@ -14,7 +14,7 @@ PROP = {
     "assumptions": ["a resume link points to a record with a smaller id (ids are handed out increasingly; links are set only at creation)"],
     "instances": [
         inst(F, "lc_cmp_strict_weak_order", Q, "3 arbitrary records", "listing comparator is a strict weak order (sort_by terminates, each element once, no panic)", covers=2),
-        inst(F, "lc_cmp_resume_after_origin", Q, "2 arbitrary records", "resumed never before origin; start-time order without resumes", covers=1),
+        inst(F, "lc_listing_n3", Q, "3 arbitrary records in arbitrary input order", "listing: each lifecycle once, resumed never before origin, start-time order without resume links", covers=3),
         inst(F, "lc_merge_step", Q, "2 arbitrary records with I", "merge: counts add up, merged record invalidated and points to survivor, min/max/start", covers=2),
     ],
 }
